@@ -226,9 +226,7 @@ class Gen:
     # ---------------------------------------------------------- Hypergraph
     def g_H_add_edge(self, name, m, op):
         mem = self.members(m, 0 if self.r.random() < 0.04 else 1, 4)
-        idx = self.new_idx(m) if self.r.random() < 0.45 else None
-        if idx == 0:
-            pass
+        idx = self.new_idx(m) if self.r.random() < self.cfg.get("explicit_idx_rate", 0.45) else None
         fault = self.maybe_fault(["none_member", "unhashable_member"])
         return self.rec(name, op, {"members": mem, "idx": idx, "attr": self.attr(single=True),
                                    "mtype": self.mtype()}, fault)
@@ -259,7 +257,7 @@ class Gen:
         return items
 
     def g_H_add_edges_from(self, name, m, op):
-        fmt = self.r.choice([1, 1, 2, 3, 4, 5])
+        fmt = self.r.choice(self.cfg.get("bulk_fmts", [1, 1, 2, 3, 4, 5]))
         items = self._bulk_items(m, fmt)
         fault = self.maybe_fault(["none_member", "unhashable_member", "dying", "empty_in_bulk"], len(items))
         return self.rec(name, op, {"fmt": fmt, "items": items, "attr": self.attr(), "mtype": self.mtype(),
@@ -272,7 +270,8 @@ class Gen:
                                    "attr": self.attr(), "stream": self.stream()}, fault)
 
     def g_H_add_node_to_edge(self, name, m, op):
-        return self.rec(name, op, {"edge": self.pick_edge(m, 0.7), "node": self.pick_node(m, 0.6)})
+        return self.rec(name, op, {"edge": self.pick_edge(m, self.cfg.get("p_existing_edge", 0.7)),
+                                   "node": self.pick_node(m, 0.6)})
 
     def g_remove_edge(self, name, m, op):
         return self.rec(name, op, {"idx": self.pick_edge(m, 0.85)})
@@ -349,7 +348,7 @@ class Gen:
         head = self.members(m, 0 if self.r.random() < 0.3 else 1, 3)
         if tail and self.r.random() < 0.25:
             head.append(tail[0]) if tail[0] not in head else None  # node in both tail and head
-        idx = self.new_idx(m, dh=False) if self.r.random() < 0.45 else None
+        idx = self.new_idx(m, dh=False) if self.r.random() < self.cfg.get("explicit_idx_rate", 0.45) else None
         fault = self.maybe_fault(["none_member", "unhashable_member"])
         if fault:
             fault["item"] = self.r.randrange(2)
@@ -357,7 +356,7 @@ class Gen:
                                    "mtype": self.mtype(), "outer": self.r.choice(["tuple", "list"])}, fault)
 
     def g_DH_add_edges_from(self, name, m, op):
-        fmt = self.r.choice([1, 1, 2, 3, 4, 5])
+        fmt = self.r.choice(self.cfg.get("bulk_fmts", [1, 1, 2, 3, 4, 5]))
         items = self._bulk_items(m, fmt, dh=True)
         fault = self.maybe_fault(["none_member", "unhashable_member", "dying"], len(items))
         return self.rec(name, op, {"fmt": fmt, "items": items, "attr": self.attr(), "mtype": self.mtype(),
@@ -394,7 +393,7 @@ class Gen:
         return mem
 
     def g_SC_add_simplex(self, name, m, op):
-        idx = self.new_idx(m) if self.r.random() < 0.4 else None
+        idx = self.new_idx(m) if self.r.random() < self.cfg.get("explicit_idx_rate", 0.4) else None
         fault = self.maybe_fault(["none_member", "unhashable_member"])
         return self.rec(name, op, {"members": self._simplex(m, allow_empty=True), "idx": idx,
                                    "attr": self.attr(single=True), "mtype": self.mtype()}, fault)
@@ -417,7 +416,7 @@ class Gen:
         return items
 
     def g_SC_add_simplices_from(self, name, m, op):
-        fmt = self.r.choice([1, 1, 2, 3, 4, 5])
+        fmt = self.r.choice(self.cfg.get("bulk_fmts", [1, 1, 2, 3, 4, 5]))
         mo = self.r.choice([None, None, 1, 2, 3])
         items = self._sc_items(m, fmt, mo is not None)
         fault = self.maybe_fault(["none_member", "unhashable_member", "dying", "empty_in_bulk"], len(items))
@@ -425,7 +424,7 @@ class Gen:
                                    "mtype": self.mtype(), "stream": self.stream()}, fault)
 
     def g_SC_alias_add_edges_from(self, name, m, op):
-        fmt = self.r.choice([1, 2, 3, 4, 5])
+        fmt = self.r.choice(self.cfg.get("bulk_fmts", [1, 2, 3, 4, 5]))
         return self.rec(name, op, {"fmt": fmt, "items": self._sc_items(m, fmt, False), "attr": self.attr(),
                                    "mtype": "list", "stream": "list"})
 
